@@ -1171,10 +1171,12 @@ end
 -- Helper to implement some binary operators.
 local function operator_binary_op(op, _, node, emitter, lattr, rattr, lname, rname)
   local ltype, rtype = lattr.type, rattr.type
+  local type = node.attr.type
   if ltype.is_integral and rtype.is_integral and
-     ltype.is_unsigned ~= rtype.is_unsigned and
-     not lattr.comptime and not rattr.comptime then
-    emitter:add('(',node.attr.type,')(', lname, ' ', op, ' ', rname, ')')
+     ((ltype.is_unsigned ~= rtype.is_unsigned and not lattr.comptime and not rattr.comptime) or
+      (type.is_integral and type.size < primtypes.cint.size)) then
+    -- C computes in `int`: reduce the result to its type, it may be an operand of another operator
+    emitter:add('(',type,')(', lname, ' ', op, ' ', rname, ')')
   elseif ltype.is_integral and rtype.is_integral and ltype ~= rtype and node.attr.type.is_integral and
          ((lattr.comptime and not lattr.untyped and ltype.size > primtypes.cint.size) or
           (rattr.comptime and not rattr.untyped and rtype.size > primtypes.cint.size)) then
@@ -1520,13 +1522,21 @@ end
 -- Implementation of unary minus operator (`-`).
 function cbuiltins.operators.unm(_, _, emitter, argattr, argname)
   assert(argattr.type.is_arithmetic)
-  emitter:add('(-', argname, ')')
+  if argattr.type.is_integral and argattr.type.size < primtypes.cint.size then
+    emitter:add('((', argattr.type, ')-', argname, ')')
+  else
+    emitter:add('(-', argname, ')')
+  end
 end
 
 -- Implementation of bitwise not operator (`~`).
 function cbuiltins.operators.bnot(_, _, emitter, argattr, argname)
   assert(argattr.type.is_integral)
-  emitter:add('(~', argname, ')')
+  if argattr.type.size < primtypes.cint.size then
+    emitter:add('((', argattr.type, ')~', argname, ')')
+  else
+    emitter:add('(~', argname, ')')
+  end
 end
 
 -- Implementation of reference operator (`&`).
